@@ -15,9 +15,12 @@
               under test: its result and the receiver afterwards; <earlier>: every kept value still
               reports what it reported when it was decoded; <prev-same>: so does `prev`
   C18 (instants and durations are int64 nanoseconds; every observation is `ok …` | `panic`):
-    c18.capture   <t>            => <Timestamp u64> <CaptureTime().UnixNano()>
+    c18.capture   <t>            => <Timestamp u64> <CaptureTime().UnixNano()> <the same, asked again>
     c18.ntp2time  <ntp u64>      => <CaptureTime().UnixNano() of Timestamp = ntp>      (correspondence only)
-    c18.offset    <t> <d> <opt (<how> <d2>)> => <Timestamp> <raw offset> <duration> <opt duration via the wire> <opt held duration>
+    c18.offset    <t> <d> <opt (<how> <d2>)> <hist> => <Timestamp> <raw offset> <duration> <opt duration via the wire> <opt held duration>
+                                                       <duration asked again> <duration asked of a struct copy> <opt wire duration asked again>
+                  hist = 1: before the extension under test is built the caller built / decoded other extensions
+                  (same offset, offset 0) and wrote through their exported `EstimatedCaptureClockOffset` pointers
                   with `some how d2` the receiver that decodes the wire form is not a zero value: it is a
                   struct copy of an extension constructed with offset d2 (how = 0), or it has decoded the wire
                   form of such an extension before and the caller kept a struct copy of it (how = 1); the
@@ -104,10 +107,13 @@ def okPred {α} (p : α → Bool) : Res α → Bool
   | .ok a => p a
   | _ => false
 
+/-- `CaptureTime()` asked a second time of the same extension: C18's clause ("within 1 ns of t") is
+    about what the accessor returns, on every call -/
 def capture : Handler :=
-  mkHandler Rd.i64 (Rd.res (do let ts ← Rd.u64; let b ← Rd.i64; pure (⟨ts, b⟩ : CaptureObs)))
-    (fun t => let ts := captureTimestamp t; .ok ⟨ts, captureTime ts⟩)
-    (fun t => okPred (captureOk t))
+  mkHandler Rd.i64
+    (Rd.res (do let ts ← Rd.u64; let b ← Rd.i64; let b2 ← Rd.i64; pure ((⟨ts, b⟩ : CaptureObs), b2)))
+    (fun t => let ts := captureTimestamp t; .ok (⟨ts, captureTime ts⟩, captureTime ts))
+    (fun t => okPred (fun (o, b2) => captureOk t o && captureOk t { o with back := b2 }))
     (fun t => instantOk t.toInt)
 
 def ntp2time : Handler :=
@@ -126,17 +132,36 @@ def heldOk (h : Option (Nat × Int64)) (k : Option Int64) : Bool :=
      | some b2 => Rtp.Pred.C18.offset d2.toInt b2.toInt
      | none => false)
 
+/-- the same clause for a LATER answer of `EstimatedCaptureClockOffsetDuration` (asked again of the
+    same extension, or of a struct copy of it): the offset given is recovered within 1 ns, sign included -/
+def againOk (d b : Int64) : Bool := !offsetOk d.toInt || Rtp.Pred.C18.offset d.toInt b.toInt
+
+/-- later answers of the accessor in `c18.offset`: asked again of the same extension, of a struct copy
+    of it, and (correspondence only) of the receiver that decoded the wire form -/
+structure OffsetAgain where
+  same : Int64
+  copy : Int64
+  wire : Option Int64
+  deriving DecidableEq, Repr
+
+/-- `hist` (0 | 1: earlier results of the constructor / decoder were edited through their exported
+    pointer before the extension under test was built) is part of the input for the record only: the
+    model is a function of `t` and `d`, what a caller did to OTHER extensions does not enter it. -/
 def offset : Handler :=
   mkHandler (do let t ← Rd.i64; let d ← Rd.i64
                 let h ← Rd.opt (do let how ← Rd.nat; let d2 ← Rd.i64; pure (how, d2))
+                let _hist ← Rd.nat
                 pure (t, d, h))
     (Rd.res (do let ts ← Rd.u64; let raw ← Rd.i64; let b ← Rd.i64; let w ← Rd.opt Rd.i64
                 let k ← Rd.opt Rd.i64
-                pure (ts, (⟨raw, b, w⟩ : OffsetObs), k)))
+                let b2 ← Rd.i64; let b3 ← Rd.i64; let w2 ← Rd.opt Rd.i64
+                pure (ts, (⟨raw, b, w⟩ : OffsetObs), k, (⟨b2, b3, w2⟩ : OffsetAgain))))
     (fun (t, d, h) => let raw := encodeOffset d
       .ok (captureTimestamp t, ⟨raw, decodeOffset raw, some (decodeOffset raw)⟩,
-           h.map (fun (_, d2) => decodeOffset (encodeOffset d2))))
-    (fun (_, d, h) => okPred (fun (_, o, k) => offsetOkObs d o && heldOk h k))
+           h.map (fun (_, d2) => decodeOffset (encodeOffset d2)),
+           (⟨decodeOffset raw, decodeOffset raw, some (decodeOffset raw)⟩ : OffsetAgain)))
+    (fun (_, d, h) => okPred (fun (_, o, k, a) =>
+      offsetOkObs d o && heldOk h k && againOk d a.same && againOk d a.copy))
     (fun (t, d, _) => instantOk t.toInt && offsetOk d.toInt)
 
 def offdur : Handler :=
